@@ -5,8 +5,25 @@ package tlib
 
 import (
 	"encoding/hex"
+	"flag"
+	"os"
 	"strings"
 )
+
+// GlogToDir sends glog output to buffered files in a fresh directory under
+// $TMPDIR (which the driver removes) instead of stderr: the test wakers log
+// several lines per wake-up, which dominates the run time when it goes to a pipe.
+func GlogToDir() {
+	d, err := os.MkdirTemp("", "glog-")
+	if err != nil {
+		return
+	}
+	for _, kv := range [][2]string{{"log_dir", d}, {"logtostderr", "false"}, {"alsologtostderr", "false"}, {"stderrthreshold", "FATAL"}} {
+		if f := flag.Lookup(kv[0]); f != nil {
+			_ = f.Value.Set(kv[1])
+		}
+	}
+}
 
 // H renders a byte string as the Coq term (H "hex") decoded by Corr/Hex.v.
 func H(s string) string { return `(H "` + hex.EncodeToString([]byte(s)) + `")` }
